@@ -25,8 +25,10 @@ import (
 	"os"
 	"path/filepath"
 	"sort"
+	"strconv"
 	"strings"
 	"testing"
+	"time"
 
 	"github.com/pilosa/pilosa"
 	"github.com/pilosa/pilosa/encoding/proto"
@@ -46,9 +48,10 @@ type c30Case struct {
 }
 
 type c30Env struct {
-	cmd *test.Command
-	api *pilosa.API
-	seq int
+	cmd   *test.Command
+	api   *pilosa.API
+	nodes []*test.Command // all nodes (cluster mode): Field.Row is node-local, rows are read as the union over the nodes
+	seq   int
 }
 
 func (e *c30Env) translate(index, field string, keys []string) ([]uint64, error) {
@@ -134,6 +137,20 @@ func (e *c30Env) check(ctx context.Context, index, field string, cs *c30Case, wh
 			return fmt.Sprintf("%s: Row(%d): %v", who, rowID, err)
 		}
 		got := row.Columns()
+		for k, nd := range e.nodes {
+			if k == 0 {
+				continue
+			}
+			nf, err := nd.API.Field(ctx, index, field)
+			if err != nil {
+				return fmt.Sprintf("%s: field on node %d: %v", who, k, err)
+			}
+			nrow, err := nf.Row(rowID)
+			if err != nil {
+				return fmt.Sprintf("%s: Row(%d) on node %d: %v", who, rowID, k, err)
+			}
+			got = append(got, nrow.Columns()...)
+		}
 		if !vk.EqualU64(vk.SortedU64(got), vk.SortedU64(want)) {
 			return fmt.Sprintf("%s: row %q (id %d): columns %s, want %s (column names %q)", who, r, rowID, vk.Brief(vk.SortedU64(got)), vk.Brief(vk.SortedU64(want)), cs.Rows[r])
 		}
@@ -233,9 +250,20 @@ func TestVerifC30(t *testing.T) {
 	if scratch == "" {
 		scratch = os.TempDir()
 	}
-	m := test.MustRunCommand()
-	defer m.Close()
-	env := &c30Env{cmd: m, api: m.API}
+	// VERIF_ESRV_NODES=3: the same round trip against a real 3-node gossip/HTTP cluster: the commands talk to
+	// the coordinator and are routed per shard; id imports of the source go to the shard's owner
+	var nodes []*test.Command
+	if n, _ := strconv.Atoi(os.Getenv("VERIF_ESRV_NODES")); n > 1 {
+		cl := test.MustRunCluster(t, n)
+		defer cl.Close()
+		nodes = cl
+	} else {
+		one := test.MustRunCommand()
+		defer one.Close()
+		nodes = []*test.Command{one}
+	}
+	m := nodes[0]
+	env := &c30Env{cmd: m, api: m.API, nodes: nodes}
 	host := m.API.Node().URI.HostPort()
 	ctx := context.Background()
 
@@ -335,10 +363,51 @@ func TestVerifC30(t *testing.T) {
 			r.Cover("shards:1")
 		}
 		for _, req := range byShard {
-			if err := env.api.Import(ctx, req); err != nil {
+			target := env.api
+			if len(nodes) > 1 && !cs.IndexKeys && !cs.FieldKeys {
+				owners, err := env.api.ShardNodes(ctx, src, req.Shard)
+				if err != nil || len(owners) == 0 {
+					r.Fail("setup", id, fmt.Sprintf("owners of shard %d: %v", req.Shard, err), cs)
+					return
+				}
+				for _, nd := range nodes {
+					if nd.API.Node().ID == owners[0].ID {
+						target = nd.API
+					}
+				}
+			}
+			if err := target.Import(ctx, req); err != nil {
 				r.Fail("setup", id, "loading the source field: "+err.Error(), cs)
 				return
 			}
+		}
+		// on a cluster a shard's first bit is announced to the other nodes asynchronously: wait (watchdog only)
+		// until the node that answers the queries knows every shard that was written
+		waitShards := func(index string) bool {
+			if len(nodes) == 1 {
+				return true
+			}
+			deadline := time.Now().Add(30 * time.Second)
+			for {
+				ok := true
+				idx := nodes[0].Server.Holder().Index(index)
+				for sh := range shardSet {
+					if idx == nil || !idx.AvailableShards().Contains(sh) {
+						ok = false
+					}
+				}
+				if ok {
+					return true
+				}
+				if time.Now().After(deadline) {
+					r.Note("inconclusive:"+id, "shard availability did not reach the coordinator (watchdog)")
+					return false
+				}
+				time.Sleep(2 * time.Millisecond)
+			}
+		}
+		if !waitShards(src) {
+			return
 		}
 		r.Eval(1)
 		if d := env.check(ctx, src, "f", cs, "source after load"); d != "" {
@@ -373,6 +442,9 @@ func TestVerifC30(t *testing.T) {
 		r.Eval(1)
 		if err := im.Run(ctx); err != nil {
 			r.Fail(sig, id, "import command failed on the exported file: "+err.Error(), cs)
+			return
+		}
+		if !waitShards(dst) {
 			return
 		}
 		r.Eval(1)
